@@ -63,9 +63,54 @@ func pairLaws(a, b eval.Score) string {
 	return msg
 }
 
+// canonical reports whether s is exactly the value the constructors build for its rank.
+func canonical(s eval.Score) bool {
+	if s.Type == eval.Heuristic {
+		return s == eval.HeuristicScore(s.Pawns)
+	}
+	r, ok := bridge.RefScore(s)
+	return ok && bridge.ImplScore(r) == s
+}
+
+// scoreClosure closes the constructor-built alphabet under the operations of the package that
+// produce scores (negation, one ply more, one ply less; Max and Min return an argument): every
+// value a search can hold is reached this way. Values are kept apart structurally, so a
+// representation the constructors never build (say "won" with a left-over mate distance) is a
+// member of its own.
+func scoreClosure(al []eval.Score) []eval.Score {
+	seen := map[eval.Score]bool{}
+	var out, todo []eval.Score
+	add := func(s eval.Score) {
+		if !seen[s] {
+			seen[s] = true
+			out = append(out, s)
+			todo = append(todo, s)
+		}
+	}
+	for _, s := range al {
+		add(s)
+	}
+	for len(todo) > 0 && len(out) < 4*len(al) {
+		s := todo[0]
+		todo = todo[1:]
+		add(s.Negate())
+		add(eval.IncrementMateDistance(s))
+		add(eval.DecrementMateDistance(s))
+	}
+	return out
+}
+
 func pairLawsTagged(a, b eval.Score) (string, string) {
-	ra, _ := bridge.RefScore(a)
-	rb, _ := bridge.RefScore(b)
+	ra, oka := bridge.RefScore(a)
+	rb, okb := bridge.RefScore(b)
+	if !oka || !okb {
+		return "malformed", fmt.Sprintf("an operation of the package produced a score that is none of lost / mate / heuristic / won: %#v %#v", a, b)
+	}
+	same := a == b
+	if !canonical(a) || !canonical(b) {
+		// a representation the constructors do not build: what it denotes decides equality
+		same = ra.Eq(rb)
+	}
 	if a.Less(b) != ra.Less(rb) {
 		return "less", fmt.Sprintf("Less(%v,%v)=%v, the stated order says %v", a, b, a.Less(b), ra.Less(rb))
 	}
@@ -76,14 +121,16 @@ func pairLawsTagged(a, b eval.Score) (string, string) {
 	if b.Less(a) {
 		n++
 	}
-	if a == b {
+	if same {
 		n++
 	}
 	if n != 1 {
-		return "total", fmt.Sprintf("not a total order on %v,%v: a<b=%v b<a=%v a==b=%v", a, b, a.Less(b), b.Less(a), a == b)
+		return "total", fmt.Sprintf("not a total order on %#v,%#v: a<b=%v b<a=%v same=%v", a, b, a.Less(b), b.Less(a), same)
 	}
-	if a.Negate().Negate() != a {
-		return "involution", fmt.Sprintf("negation is not an involution on %v: --a=%v", a, a.Negate().Negate())
+	if nn := a.Negate().Negate(); canonical(a) && nn != a {
+		return "involution", fmt.Sprintf("negation is not an involution on %v: --a=%v", a, nn)
+	} else if rn, ok := bridge.RefScore(nn); !ok || !rn.Eq(ra) {
+		return "involution", fmt.Sprintf("negation is not an involution on %#v: --a=%#v", a, nn)
 	}
 	if a.Less(b) != b.Negate().Less(a.Negate()) {
 		return "reverse", fmt.Sprintf("negation does not reverse the order: %v<%v is %v but %v<%v is %v", a, b, a.Less(b), b.Negate(), a.Negate(), b.Negate().Less(a.Negate()))
@@ -100,6 +147,16 @@ func pairLawsTagged(a, b eval.Score) (string, string) {
 	if ra.Less(rb) {
 		wantMax, wantMin = b, a
 	}
+	if !canonical(a) || !canonical(b) {
+		rmx, ok1 := bridge.RefScore(mx)
+		rmn, ok2 := bridge.RefScore(mn)
+		rwx, _ := bridge.RefScore(wantMax)
+		rwn, _ := bridge.RefScore(wantMin)
+		if !ok1 || !ok2 || !rmx.Eq(rwx) || !rmn.Eq(rwn) {
+			return "maxmin", fmt.Sprintf("Max/Min(%#v,%#v)=%#v/%#v", a, b, mx, mn)
+		}
+		return "", ""
+	}
 	if a != b && (mx != wantMax || mn != wantMin) {
 		return "maxmin", fmt.Sprintf("Max/Min(%v,%v)=%v/%v", a, b, mx, mn)
 	}
@@ -110,8 +167,11 @@ func pairLawsTagged(a, b eval.Score) (string, string) {
 }
 
 func checkC09(c *harness.Check) {
-	al := scoreAlphabet()
-	c.Rule = fmt.Sprintf("alphabet of %d scores: won, lost, mate k for every k in [-128,127]\\{0}, %d float32 heuristics incl. +-0, denormals, 1-ulp neighbours, +-max, +-Inf; ALL pairs: Less vs rank tuple, trichotomy with ==, negation involutive and order-reversing, one more ply order-preserving and equal to the model's, Max/Min; ALL triples: transitivity; thorough: unary/neighbour laws over all 2^32 float32 payloads. distinct_nontrivial = pairs of distinct scores", len(al), len(al)-257)
+	base := scoreAlphabet()
+	al := scoreClosure(base)
+	c.SetExtra("constructor_alphabet", len(base))
+	c.SetExtra("closure_under_negate_inc_dec", len(al))
+	c.Rule = fmt.Sprintf("alphabet of %d scores: won, lost, mate k for every k in [-128,127]\\{0}, %d float32 heuristics incl. +-0, denormals, 1-ulp neighbours, +-max, +-Inf, CLOSED (breadth-first, values kept apart structurally) under the score-producing operations Negate / IncrementMateDistance / DecrementMateDistance, so that representations the constructors never build are members too; ALL pairs: Less vs rank tuple, trichotomy with ==, negation involutive and order-reversing, one more ply order-preserving and equal to the model's, Max/Min; ALL triples: transitivity; thorough: unary/neighbour laws over all 2^32 float32 payloads. distinct_nontrivial = pairs of distinct scores", len(base), len(base)-257)
 	c.States.Store(int64(len(al)))
 	harness.Parallel(len(al), func(i int) {
 		a := al[i]
